@@ -20,7 +20,8 @@ pub struct Cfg {
     /// 0 = three plain objects; 1 = the first is transferred twice, the second is a carousel object
     /// (1 s between transfers), the third has a start time 1 s after t0; 2 = transfer counts 0 and 3, a
     /// carousel with a zero delay; 3 = other add order; 4 = target acquisition: deadline passed / deadline now / zero
-    /// duration; 5 = target acquisition: duration 1 s / deadline in 1.5 s / as fast as possible
+    /// duration; 5 = target acquisition: duration 1 s / deadline in 1.5 s / as fast as possible; 6 = Reed-Solomon, RaptorQ (FDT-only FTI) and a
+    /// gzip-encoded object
     #[serde(default)]
     pub catalog_kind: u8,
     /// session OTI = Reed-Solomon without parity symbols, under which no FDT instance can be encoded: every
@@ -61,6 +62,13 @@ pub fn catalog_of(kind: u8) -> Vec<ObjSpec> {
         v[0].target = Some(Target::WithinMs(1000));
         v[1].target = Some(Target::AtMs(1500));
         v[2].target = Some(Target::Asap);
+    }
+    if kind == 6 {
+        // other FEC schemes and a content encoding (announce-before-send must not depend on them)
+        v[0].oti = Some(OtiSpec::new(Scheme::Rs28, 4, 2, 1, true));
+        v[1].oti = Some(OtiSpec::new(Scheme::RaptorQ, 4, 2, 1, false));
+        v[2].cenc = 3;
+        v[2].text = true;
     }
     if kind == 2 {
         // degenerate and extreme transfer counts: 0 (flute sends such an object once) and a large one
@@ -344,7 +352,7 @@ pub fn configs() -> Vec<Cfg> {
     }
     // objects with a target acquisition (pacing)
     for full_fdt in [true, false] {
-        for catalog_kind in [4u8, 5] {
+        for catalog_kind in [4u8, 5, 6] {
             v.push(Cfg { full_fdt, multiplex: 1, queues: 2, fdt_e: 1424, catalog_kind, sess_raptor: false, sess_rs: false, fdt_carousel: 0, sess_real_raptor: false });
         }
     }
